@@ -349,7 +349,7 @@ func TestC07_Sharing(t *testing.T) {
 		maxN = 24
 	}
 	rcheck(t, 1600, 32000, func(t *rapid.T) {
-		gi := groups[rapid.IntRange(0, len(groups)-1).Draw(t, "group")]
+		gi := groups[uniformInt(t, 0, len(groups)-1, "group")]
 		c07Case(t, ev, gi, maxN)
 	})
 }
